@@ -477,4 +477,3 @@ func (it *stringIter) next() tuple {
 	it.i += n
 	return okv
 }
-
